@@ -2,7 +2,8 @@
 
   translate   lcapy/laplace.py (+ transformer.py, utils.py) -> Gen/LaplaceGen.v        (tools/tr_laplace.py)
   prove       props/C09_entry_*.v  table_entry_<k>: translated closed form = specification entry (LPair)
-              props/C09.v          gen_forms_ok, term_sound_gen, doit_sound_gen, L_linear, cache_transparent,
+              props/C09.v          gen_forms_ok, term_sound_gen, integral_returns_gen, conv_exp_named_gen, doit_sound_gen, L_linear,
+                                   cache_transparent,
                                    analysis: table entries = the defining integral (LaplaceAnalysis.v)
   correspond  generated expressions of the supported class: real `x(s)` (tools/impl_laplace.py) vs the model
               `doit` of coq/theory/LaplaceModel.v, evaluated by vm_compute inside Coq over Q(i)
@@ -34,8 +35,9 @@ MANIFEST = {
             '(table + linearity, delay, exponential weighting, time scaling, derivative with 0- values, integral, convolution), '
             'and the hand model of LaplaceTransformer.term / UnilateralForwardTransformer.doit is sound for LPair, linear and '
             'cache-transparent; all three returns of LaplaceTransformer.integral are modelled (running integral written with the integration '
-            'variable, written as int_0^oo v(t - tau) dtau, convolution; constants inside the integral), its whole body is pinned by the '
-            'translator and integral_returns_gen proves both running-integral forms return c V(s)/s = LPair transform; polynomial factors (sums inside products, distributed by expand) are inside the model.  For products of real '
+            'variable, written as int_0^oo v(t - tau) dtau, convolution of two named functions and of exp(a t) with a named function; constants '
+            'inside the integral), its whole body is pinned by the translator; integral_returns_gen proves both running-integral forms '
+            'return c V(s)/s and conv_exp_named_gen that exp(a tau) * v(t - tau) returns c V(s)/(s - a), each the LPair transform; polynomial factors (sums inside products, distributed by expand) are inside the model.  For products of real '
             'classical factors the denotation is proved to be the pointwise product of the factor functions on t > 0, so the value '
             'the model assigns is the defining integral of that very function (classical_term_is_integral).  The model is tied to the code by evaluating it inside Coq on generated expressions against '
             'what Lcapy returned (values and dispatch events).',
@@ -220,6 +222,11 @@ class Gen:
                 return 'named_integA', 'integrate(%s%s(t - tau), (tau, 0, oo))' % (k2, v)
             lo = self.ch(['0', '-oo', '-1', '-3/2'])
             return 'named_integ', 'integrate(%s%s(tau), (tau, %s, t))' % (k2, v, lo)
+        if self.rng.random() < 0.4:
+            # convolution of the classical signal exp(-r t) (t >= 0) with a named function (lower limit 0)
+            fs = ['exp(-%s*tau)' % self.ch(RATES + ['a']), '%s(t - tau)' % v]
+            self.rng.shuffle(fs)
+            return 'named_conve', 'integrate(%s%s*%s, (tau, 0, %s))' % (k2, fs[0], fs[1], self.ch(['t', 't', 'oo']))
         h = 'h'
         form = self.ch(['integrate(%s%s(tau)*%s(t - tau), (tau, 0, t))', 'integrate(%s%s(t - tau)*%s(tau), (tau, -oo, oo))',
                         'integrate(%s%s(tau)*%s(t - tau), (tau, -oo, t))'])
@@ -343,6 +350,8 @@ def leaf_coq(f):
         return '(LIntegA (K:=QcIF) %d)' % f[1]
     if t == 'conv':
         return '(LConv (K:=QcIF) %d %d)' % (f[1], f[2])
+    if t == 'conve':
+        return '(LConvE (K:=QcIF) %s %d %s)' % (kq(f[1]), f[2], 'true' if f[3] else 'false')
     raise ValueError(t)
 
 
@@ -457,12 +466,12 @@ def explains(name, key):
         return fs == {'deriv'}
     if name in ('table_entry_integ', 'integral_returns_gen'):
         return bool(fs) and fs <= {'integ', 'integA'}
-    if name == 'table_entry_conv':
-        return fs == {'conv'}
+    if name in ('table_entry_conv', 'conv_exp_named_gen'):
+        return bool(fs) and fs <= {'conv', 'conve'}
     if name == 'table_entry_const':
         return fs == {'1'}
     if name == 'table_entry_exp':
-        return fs == {'exp'}
+        return fs == {'exp'} or fs == {'conve'}
     return False
 
 
@@ -613,7 +622,8 @@ def run(tier='quick', replay=None):
                         'diff(delta(t - 1), t)*v(t)', '5*delta(t)', 'cos(t)*delta(t) + t', 'exp(-2*t)*diff(delta(t), t)',
                         # the three returns of LaplaceTransformer.integral, with a constant inside the integral (const2)
                         'integrate(v(t - tau), (tau, 0, oo))', '3*integrate(2*v(tau), (tau, -1, t))',
-                        'integrate(a*x(tau)*h(t - tau), (tau, 0, t)) + integrate((1/2)*y(t - tau), (tau, 0, oo))'):
+                        'integrate(a*x(tau)*h(t - tau), (tau, 0, t)) + integrate((1/2)*y(t - tau), (tau, 0, oo))',
+                        'integrate(exp(-2*tau)*x(t - tau), (tau, 0, t))', '3*integrate(v(t - tau)*exp(-tau), (tau, 0, oo)) + exp(-t)'):
                 cases.insert(0, {'expr': txt, 'zic': False, 'kinds': ['corpus'], 'points': make_points(rng), 'oracle': True})
                 if txt == 'diff(delta(t - 1), t)*v(t)':
                     cases[0]['expect'] = 'error'
@@ -771,7 +781,8 @@ def run(tier='quick', replay=None):
         res.extra['traces_validated_against_impl'] = len(items)
         res.rule = ('cases: %d generated expressions (sums of 1-3 terms; term = coefficient x product of <= 3 factors from polynomials, real/complex '
                     'exponentials, sin/cos/sinh/cosh with phase, Heaviside/Dirac (and derivatives) with delays >= 0, rect/tri/ramp/rampstep with scale '
-                    'and shift, named functions with shift/scale, derivatives, integrals, convolutions; numeric and symbolic coefficients), history cases '
+                    'and shift, named functions with shift/scale, derivatives, running integrals in both forms accepted by integral() (lower limit 0, -oo or '
+                    'negative), convolutions of two named functions and of exp(a t) with a named function; numeric and symbolic coefficients), history cases '
                     'through one cache, and the corpus of past findings; each evaluated at 2 integer points s0; non-trivial = Lcapy returned a closed form '
                     'and the dispatch took at least one non-default branch; distinct = distinct (expression, zero_initial_conditions)') % n_expr
         # ---- 6. counterexamples: oracle verdicts and value differences ------------------------------------------------
